@@ -9,25 +9,35 @@ DRIVER = "drv_io"
 DRIVER_MODULE = "Driver.Io"
 PROPS = "RlibModel.Props.C08"
 PROPS_SRC = "RlibModel.Props.C08Src"     # second tie: `src_*` theorems about the definitions regenerated from the source text
-PROFILES = ["release"]
+PROFILES = ["release", "debug"]     # debug: debug_assert!s of reader.rs on, no optimisation (reduced streams, see harness_args)
 SHRINK_SEP = ";"
 RULE = ("case = (BUF, input bytes, delivery schedule, script). Inputs from the token/separator grammar (all 12 integer types "
-        "incl. MIN/MAX, words, chars; separators space, tab, LF, CR LF, runs), line-oriented inputs (empty lines, CRLF, "
+        "incl. MIN/MAX, words, chars; token, char and line bytes from the whole non-whitespace ASCII range: printable, and in 1 word/line of 5 "
+        "NUL - the value peek yields at end of input -, VT, DEL and the other C0 controls; bytes >= 0x80 only on `full` twin lines, counted, "
+        "since the property speaks of ASCII inputs; separators space, tab, LF, CR LF, runs), line-oriented inputs (empty lines, CRLF, "
         "unterminated last line, lone CR at the end, CR in the middle), long inputs >= 3*BUF. Schedules: chunk sizes 1, 2, token "
         "boundaries, between '-' and digits, between CR and LF, BUF-1/BUF/BUF+1 (BUF extracted from reader.rs), Interrupted at "
-        "chosen read calls; for inputs of <= 6 bytes ALL chunkings x all single-interrupt placements. Scripts mix read::<T>, "
+        "chosen read calls; for inputs of <= 6 bytes over {1,-,space,LF,CR,a} (and, containing a NUL, over that alphabet plus NUL) ALL chunkings x "
+        "all single-interrupt placements. Scripts mix read::<T>, "
         "tuples, read_vec, read_line(s), is_eof. Every case is also replayed by the harness under the one-big-read schedule and "
         "through an independent tokenizer; a difference is marked in the view. The spec (S) and the view constrain only the "
         "in-domain prefix of a script (valid integer tokens in range, no token/char read when nothing is left); ` ~` marks that "
         "later operations are outside the property's domain: they are not compared on that line; every case of the out-of-domain "
         "stream has a twin line (header flag `full`, `S any`) on which all results of model and implementation are compared and "
         "differences are only counted. The buffer size comes from the source text when an anchor matches, else from the running "
-        "code (coverage.extracted_params.buf_source). non-trivial = distinct case with a non-empty in-domain prefix whose schedule splits the input into at "
-        "least two reads or contains an Interrupted event")
+        "code (coverage.extracted_params.buf_source). Stream 7 (wave 3): SEVERAL Readers alive on one thread, each over its own input "
+        "and schedule, calls interleaved - all merges of two scripts of <= 3 calls over 8 tiny inputs, random merges / round robin / bursts over "
+        "2..5 readers, the temporary-reader shape (readers created, used and dropped between two calls of a main reader; also readers "
+        "that are only created and dropped, readers over a line of the main input, readers over the same bytes), two inputs longer than BUF; "
+        "lifecycle steps new (up front or lazy) / drop (at once, at the end, never) / mv (the value is moved in memory); the harness also replays "
+        "the calls of every reader on a fresh Reader used alone (`!alone<k>`). A second, reduced run of all streams uses the debug build "
+        "(debug_assert! on). non-trivial = distinct case with a non-empty in-domain prefix whose schedule splits the input into at "
+        "least two reads or contains an Interrupted event; for a multi-reader case: some reader is used again after another reader made a call")
 ASSUMPTIONS = [
     "the Lean model of rlib_io::Reader is hand-written; it is tied to the code by running both on the same (input, schedule, script) cases",
     "the source obeys the std::io::Read contract: it never reports more bytes than it wrote, and after returning 0 it has no more data",
-    "harness built in the release profile with overflow-checks=true (debug_assert! of reader.rs is off, as in a contest build)",
+    "harness built in the release profile with overflow-checks=true (debug_assert! of reader.rs is off, as in a contest build); a second, reduced run uses the debug build (debug_assert! on): the model has no debug_assert!, which is sound because every compared result lies inside the property's domain, where none of them can fire; outside it (twin lines) differences are only counted",
+    "several live readers (stream 7): the model keeps one independent RState per reader (runMulti), so independence of readers holds in the model by construction and is stated as theorems (readers_independent, spec_reader_independent); that the REAL readers do not share state is what the differential run tests - on one thread only (readers on different threads are not exercised); Reader::new, drop and a move of the value are no-ops of the model; `!alone<k>` is an independent replay inside the harness (a fresh Reader used alone), not a model",
     "the buffer size is read from rlib/io/src/reader.rs when an anchor matches, otherwise learned from the running code (slice offered to the first read); it only aims the boundary streams and parametrises the model: the theorems hold for every BUF >= 1 and the spec does not depend on it",
 ]
 TRUSTED_EXTRA = ["std::io::Read contract of the source handed to Reader::new", "Box<dyn Read>, String::push, Vec::push of std"]
@@ -38,8 +48,11 @@ MANIFEST = {
              "String, char, 12 integer types with checked arithmetic, read_line, read_lines, is_eof, read_vec, tuples) refines a pure "
              "function of the remaining bytes; hence delivery_independent: any two event lists with the same data concatenation, any "
              "two buffer sizes >= 1 and any script give the same outputs, equal to the spec's; consumed_bytes_irrelevant; "
-             "decimal parsing returns the value for every integer of every width incl. MIN. The model is tied to rlib_io by a "
-             "differential correspondence run (schedule-driven Read source) on every check."),
+             "decimal parsing returns the value for every integer of every width incl. MIN. Several readers: a script interleaving calls on "
+             "several readers (each in its own reachable state) yields the interleaving of the per-reader specification traces "
+             "(multi_refines, multi_schedule_independent), and what reader k returns equals what the same calls return on a reader used "
+             "alone over the same bytes under any other delivery (readers_independent). The model is tied to rlib_io by a "
+             "differential correspondence run (schedule-driven Read source; one or several live Readers on a thread) on every check."),
     "note": ("Trusted: Lean kernel, axioms propext/Classical.choice/Quot.sound, the hand-written model (checked against the code on generated "
              "cases only: exhaustive chunkings x single interrupts for inputs <= 6 bytes, boundary-targeted and random schedules), the Read "
              "contract of the source, harness and driver plumbing. Non-ASCII bytes are modelled (Latin-1 `as char`) but are outside the property."),
@@ -155,7 +168,8 @@ def extract(repo):
 
 
 def harness_args(params, profile):
-    return ["--buf", str(params["reader_buf_size"]) if params.get("buf_source") == "source" else "auto"]
+    """`--profile debug`: the generator emits the same streams at a reduced size (gen.rs `Gen::size`)."""
+    return ["--buf", str(params["reader_buf_size"]) if params.get("buf_source") == "source" else "auto", "--profile", profile]
 
 
 def _extra_probe(ctx):
@@ -200,6 +214,11 @@ def nontrivial(case, rec):
             return False
         hdr = case.split(";")[0].split()
         buf, hx, sched = int(hdr[0]), hdr[1], hdr[2]
+        if "+" in hdr:
+            # several live readers: some reader makes a call, then another reader does, then the first one is used again
+            ks = [int(st.split(".")[0]) for st in (p.strip() for p in case.split(";")[1:])
+                  if "." in st and st.split(".", 1)[1] not in ("new", "drop", "mv")]
+            return any(ks[i] != ks[i - 1] and ks[i] in ks[:i - 1] for i in range(1, len(ks)))
     except (IndexError, ValueError):
         return False
     n = 0 if hx == "-" else len(hx) // 2
